@@ -43,7 +43,7 @@ def prove(assumptions, goal, timeout_ms=DEFAULT_TIMEOUT_MS, seed=0, use_cvc5=Tru
             return tac.check()
         except z3.Z3Exception:
             return z3.unknown
-    short = min(timeout_ms, 3000)
+    short = min(timeout_ms, 10000)
     s = _mk_solver(short, seed)
     s.add(*fs)
     s.add(*inst)
